@@ -15,7 +15,8 @@
 EXTENDS PaZipStream, TLC, Json
 
 CONSTANTS LoopBits,      \* bits decode_matches wants before it parses another match: 3 pinned, 8 repaired
-          GlobPosBytes   \* bytes of a global dictionary position in the legacy frame: 2 pinned, 4 with fix C02-5
+          GlobPosBytes,  \* bytes of a global dictionary position in the legacy frame: 2 pinned, 4 with fix C02-5
+          Deep           \* TRUE (thorough tier): every valid boundary match next to every representative
 VARIABLE it
 
 (* boundary values of a field whose valid range is lo..hi inside a type 0..tmax *)
@@ -41,7 +42,10 @@ Reps == << M("lit", 0, 1, 0, 0), M("lit", 0, 32, 0, 0), M("glob", 0, 6, 0, 3), M
 Reps3 == << M("lit", 0, 1, 0, 0), M("glob", 0, 300, 0, 65536), M("rle", 0, 33, 255, 0), M("near", 9, 2, 0, 0),
             M("far2l", 0, 35, 0, 0), M("far3l", 1, 161, 0, 0) >>
 
+ValidSingles == {s \in Singles : Valid(s)}
 Pairs == {<<Reps[i], Reps[j]>> : i, j \in 1..Len(Reps)}
+         \cup (IF Deep THEN {<<s, Reps[j]>> : s \in ValidSingles, j \in 1..Len(Reps)} \cup {<<Reps[j], s>> : s \in ValidSingles, j \in 1..Len(Reps)}
+               ELSE {})
 Triples == {<<Reps3[i], Reps3[j], Reps3[k]>> : i, j, k \in 1..Len(Reps3)}
 
 (* ---- streams the interpreter is applied to *)
@@ -93,7 +97,7 @@ Outs == UNION {[1..n -> {1, 2}] : n \in 1..4}
 CopyLaw == \A o \in Outs : \A d \in 1..Len(o) : \A n \in 0..7 : CopyBB(o, d, n) = CopyCF(o, d, n)
 ASSUME CopyLaw
 
-LawSet == {<<m>> : m \in {s \in Singles : Valid(s)}} \cup Pairs \cup Triples
+LawSet == {<<m>> : m \in ValidSingles} \cup Pairs \cup Triples
 LawSpec == it \in LawSet /\ [][UNCHANGED it]_it
 BitsTableOK == \A i \in 1..Len(it) : Len(EncodeM(it[i])) = Bits(it[i])
 (* lengths the 30-bit field of the long form cannot hold are outside the law (and are refused or not is observed) *)
